@@ -696,6 +696,10 @@ func (t *Teamserver) EventBroadcast(ExceptClient string, pk packager.Package) {
 
 	t.Clients.Range(func(key, value any) bool {
 		ClientID := key.(string)
+		if client, isClient := value.(*Client); !isClient || !client.Authenticated {
+			// connections are registered at upgrade time: nothing is sent before the handshake succeeded
+			return true
+		}
 		if ExceptClient != ClientID {
 			err := t.SendEvent(ClientID, pk)
 			if err != nil && !strings.Contains(err.Error(), "use of closed network connection") {
